@@ -21,10 +21,7 @@ func (cc *Conn) VerifSizes() map[string]int {
 		out["blockwise_receiving"] = r
 		out["blockwise_sending"] = s
 	}
-	n := 0
-	for _, v := range cc.LimitParallelRequests.VerifQueues() {
-		n += int(v[0] + v[1])
-	}
-	out["limiter_entries"] = n
+	// entries, not counters: an endpoint entry must disappear when its counter reaches zero
+	out["limiter_entries"] = len(cc.LimitParallelRequests.VerifQueues())
 	return out
 }
